@@ -1,5 +1,6 @@
 import BU.Driver.Core
 import BU.Driver.Taproot
+import BU.Driver.Keys
 import BU.Gen.Codec
 import BU.Gen.Tables
 import BU.Crypto.Sha256
@@ -83,6 +84,15 @@ def genOps2 : List (String × R String) := [
         | none => .error .valueError
       let enc := fun (r s _n : Int) => Spec.derEncode r.toNat s.toNat
       pure (ansG hex (Gen.sign_input sign dec enc (atts.length - 1) (List.replicate 32 0) (ht : Int)))),
+  ("g:wif_enc", do
+      let pfx ← netPfx; let d ← bytes; let c ← bool
+      pure (ansG hexStr (Gen.to_wif Crypto.sha256 Spec.B58.encode pfx d c))),
+  ("g:wif_dec", do
+      let pfx ← netPfx; let w ← str
+      let dec := fun (x : String) => match Spec.B58.decode x with
+        | some d => (Except.ok d : Except PyErr Bytes) | none => .error .valueError
+      let sfs := fun (b : Bytes) => (Model.signingKeyFromString b).map (fun (n : Nat) => (n : Int))
+      pure (ansG (fun (d : Int) => hex (Py.beBytes 32 d.toNat)) (Gen.from_wif Crypto.sha256 dec sfs pfx w))),
   ("g:target", do
       let bits ← nat
       pure (ansG (fun (b : Bytes) => if b.length ≥ 32 then toString (Py.ofBE b) else "bad-width") (Gen.blockheader_target (bits : Int)))),
